@@ -87,12 +87,23 @@ def run_session(case):
             self.idx = idx
             self.spec = spec
 
+        def _fault(self, where):
+            if self.spec.get("raise_in") == where:
+                # a bug in a handler (not in the server): whatever it raises, the request port must survive it
+                raise {"KeyError": KeyError, "ValueError": ValueError, "RuntimeError": RuntimeError,
+                       "OSError": OSError, "TypeError": TypeError, "AttributeError": AttributeError,
+                       "LookupError": LookupError, "Exception": Exception,
+                       "UnicodeDecodeError": lambda m: UnicodeDecodeError("ascii", b"\xff", 0, 1, m),
+                       }[self.spec.get("raise_kind", "KeyError")]("simulated handler failure")
+
         def prepare_context(self, filename):
             calls.append(["prepare", self.idx, filename])
+            self._fault("prepare")
             return ("ctx", self.idx, filename)
 
         def can_handle(self, filename, context):
             calls.append(["can_handle", self.idx, filename, list(context) if isinstance(context, tuple) else context])
+            self._fault("can_handle")
             acc = self.spec.get("accept")
             return True if acc is None else (filename in acc)
 
@@ -123,8 +134,13 @@ def run_session(case):
         datagrams = [case["datagram"]] + [m["datagram"] for m in more]
         for i, dg in enumerate(datagrams):
             m0, c0, t0 = len(w.main_log), len(calls), len(w.threads)
-            main.push(bytes.fromhex(dg), sim_net.CLIENT_ADDR, case.get("dst"))
-            main.wait_processed(i + 1)
+            if not obs.get("port_dead"):
+                main.push(bytes.fromhex(dg), sim_net.CLIENT_ADDR, case.get("dst"))
+                port_thread = w.threads[0] if w.threads else None
+                if not main.wait_processed(i + 1, alive=(port_thread.is_alive if port_thread is not None else None)):
+                    # the thread serving the request port has ended although nobody stopped the server: this and
+                    # every later datagram stay unanswered
+                    obs["port_dead"] = True
             marks.append((m0, len(w.main_log), c0, len(calls), t0, len(w.threads)))
         # transfer threads were created by the request-port thread before it asked for the next
         # datagram; join them (they run on virtual time, so this is quick)
